@@ -7,16 +7,11 @@ python3 - <<'PY'
 import sys, os
 sys.path.insert(0, "tools")
 import check
-ok, notes = check.run_translators()
-print("translators:", ok, notes)
-PY
-(cd lean && lake build)
-python3 - <<'PY'
-import sys
-sys.path.insert(0, "tools")
-import check
 exe, err = check.build_harness()
 if exe is None:
     print(err); sys.exit(1)
 print("harness:", exe)
+ok, notes = check.run_translators(os.path.dirname(exe))
+print("translators:", ok, notes)
 PY
+(cd lean && lake build)
